@@ -132,6 +132,9 @@ func genBlock(r *vh.Rand) []byte {
 	es := genEntries(r)
 	count := uint32(len(es))
 	mut := r.Intn(14)
+	if r.Chance(1, 8) {
+		mut = 12 + r.Intn(2)
+	}
 	switch mut {
 	case 0:
 		count++
@@ -145,14 +148,20 @@ func genBlock(r *vh.Rand) []byte {
 	b := be32(count)
 	for i, e := range es {
 		name := strings.ToLower(e.name)
+		v := strings.Join(e.vals, "\x00")
 		if mut == 3 && i == 0 {
 			name = e.name // maybe not lower-cased
 		}
 		if mut == 4 && i > 0 {
 			name = strings.ToLower(es[0].name) // duplicate
 		}
+		if mut == 12 && i == len(es)-1 {
+			name, v = r.Pick("Accept", "X-A", "Content-Type", "ETag", "COOKIE"), "" // last entry, empty value
+		}
+		if mut == 13 && i == len(es)-1 && i > 0 {
+			name, v = strings.ToLower(es[0].name), "" // duplicate as last entry, empty value
+		}
 		nl := uint32(len(name))
-		v := strings.Join(e.vals, "\x00")
 		vl := uint32(len(v))
 		if i == len(es)-1 {
 			switch mut {
@@ -285,7 +294,70 @@ func laxLen(r *vh.Rand, fixed *[]byte) string {
 	return "+0"
 }
 
+// genAfterError: a frame with a per-frame error (the reader must end exactly at its boundary) followed by valid frames
+func genAfterError(r *vh.Rand) string {
+	p := []string{"st"}
+	if r.Chance(1, 2) {
+		p = append(p, validItem(r))
+	}
+	up := r.Pick("Accept", "X-A", "Content-Type", "ETag")
+	blk := func(es []entry, last string) []byte {
+		b := be32(uint32(len(es) + 1))
+		for _, e := range es {
+			n := strings.ToLower(e.name)
+			v := strings.Join(e.vals, "\x00")
+			b = append(append(append(append(b, be32(uint32(len(n)))...), n...), be32(uint32(len(v)))...), v...)
+		}
+		b = append(append(b, be32(uint32(len(last)))...), last...)
+		return append(b, be32(0)...)
+	}
+	clean := []entry{{":method", []string{"GET"}}, {"x-b", []string{"1", "2"}}}[:r.Intn(3)]
+	switch r.Intn(5) {
+	case 0, 1: // upper-case name
+		p = append(p, fmt.Sprintf("c:3:%d:0:+0:%s:%s", 2, vh.Hex(be32(uint32(r.Range(1, 9)))), vh.Hex(blk(clean, up))))
+	case 2: // duplicate name
+		if len(clean) == 0 {
+			clean = []entry{{"x-b", []string{"1"}}}
+		}
+		p = append(p, fmt.Sprintf("c:3:2:0:+0:%s:%s", vh.Hex(be32(5)), vh.Hex(blk(clean, clean[0].name))))
+	case 3: // stream id 0 on a header frame / data frame
+		if r.Bool() {
+			p = append(p, fmt.Sprintf("c:3:2:0:+0:%s:%s", vh.Hex(be32(0)), vh.Hex(blk(clean, "x-c"))))
+		} else {
+			p = append(p, "d:0:0:+0:"+vh.Hex(r.Bytes(r.Range(1, 9))))
+		}
+	default: // forbidden header
+		p = append(p, fmt.Sprintf("c:3:2:0:+0:%s:%s", vh.Hex(be32(7)), vh.Hex(blk(clean, "connection"))))
+	}
+	for i, n := 0, r.Range(1, 3); i < n; i++ {
+		p = append(p, validItem(r))
+	}
+	return strings.Join(p, " ")
+}
+
+func validItem(r *vh.Rand) string {
+	sid := uint32(r.Range(1, 9))
+	switch r.Intn(5) {
+	case 0:
+		return fmt.Sprintf("c:3:6:0:+0:%s:_", vh.Hex(be32(uint32(r.Range(1, 9)))))
+	case 1:
+		return fmt.Sprintf("d:%d:%d:+0:%s", sid, r.Intn(2), vh.Hex(r.Bytes(r.Range(0, 12))))
+	case 2:
+		return fmt.Sprintf("c:3:3:0:+0:%s:_", vh.Hex(append(be32(sid), be32(uint32(r.Range(1, 11)))...)))
+	}
+	es := []entry{{":status", []string{"200"}}, {"x-d", []string{"v"}}, {"etag", []string{"a", "b"}}}[:r.Range(0, 3)]
+	b := be32(uint32(len(es)))
+	for _, e := range es {
+		v := strings.Join(e.vals, "\x00")
+		b = append(append(append(append(b, be32(uint32(len(e.name)))...), e.name...), be32(uint32(len(v)))...), v...)
+	}
+	return fmt.Sprintf("c:3:2:%d:+0:%s:%s", r.Intn(2), vh.Hex(be32(sid)), vh.Hex(b))
+}
+
 func gen(r *vh.Rand) string {
+	if r.Chance(1, 6) {
+		return genAfterError(r)
+	}
 	if r.Chance(2, 5) {
 		n := r.Range(1, 5)
 		p := []string{"rt"}
